@@ -933,7 +933,10 @@ func (db *DB) initDatabaseFile() error {
 	// short compared to the page count in the header so just checksum what we
 	// can. The database may recover in applyLTX() so we'll do validation then.
 	db.chksums.pages = make([]ltx.Checksum, db.PageN())
-	db.chksums.blocks = make([]ltx.Checksum, pageChksumBlock(db.PageN()))
+	db.chksums.blocks = nil
+	if pageN := db.PageN(); pageN > 0 {
+		db.chksums.blocks = make([]ltx.Checksum, pageChksumBlock(pageN))
+	}
 
 	lastGoodPage, err := ltx.ChecksumPages(db.DatabasePath(), db.pageSize, db.PageN(), 0, db.chksums.pages)
 
